@@ -180,7 +180,7 @@ def extOf (g : Graph) : Ext where
 def parseScope (s : String) : Scope :=
   if s == "span" then .span else if s == "trace" || s == "" then .trace else .invalid
 
-def hasDown (d : String) : Bool := d.startsWith "det" || d.startsWith "missing" || d.startsWith "dyn"
+def hasDown (d : String) : Bool := d.startsWith "det" || d.startsWith "missing" || d.startsWith "dyn" || d.startsWith "ema"
 
 /-- input-building operations; `none` = not one of them, `some none` = malformed -/
 def applyInput (st : Inp) (op : List String) (exts : List (List String)) : Option (Option Inp) :=
@@ -480,7 +480,16 @@ def monEval (st : Inp) (g : Graph) (obs : String) : List Fail :=
             if rate == 1 && keep && reason == scopePrefix r.scope ++ "bad_rule:" ++ r.name then [] else [mk "delegation" s!"rule {r.name} has no downstream sampler but rate={rate} keep={keep} reason={reason}"]
           | some d =>
             if rate == d.rate && keep == d.keep && key == d.key && reason == scopePrefix r.scope ++ r.name ++ ":" ++ d.reason then []
-            else [mk "delegation" s!"rule {r.name}: downstream said rate={d.rate} keep={d.keep} reason={d.reason}, sampler returned rate={rate} keep={keep} reason={reason}"]
+            else
+              -- is it the answer another rule's downstream sampler gives for this trace?
+              let other := st.rules.find? fun r' => match r'.sampler with
+                | some id' => id' != id && (match (g.down.lookup id').getD none with
+                  | some d' => rate == d'.rate && keep == d'.keep && key == d'.key && reason == scopePrefix r.scope ++ r.name ++ ":" ++ d'.reason
+                  | none => false)
+                | none => false
+              match other with
+              | some r' => [mk "downstream-sampler-of-another-rule" s!"first matching rule {r.name} (#{id}) has a downstream sampler answering rate={d.rate} key={d.key} reason={d.reason}, but the sampler returned rate={rate} key={key} reason={reason}, which is the answer of the downstream sampler of rule #{r'.sampler.getD 0} ({r'.name})"]
+              | none => [mk "delegation" s!"rule {r.name}: downstream said rate={d.rate} keep={d.keep} reason={d.reason}, sampler returned rate={rate} keep={keep} reason={reason}"]
         | none =>
           if reason != scopePrefix r.scope ++ r.name then [mk "first-match-wrong-rule" s!"first matching rule is {r.name} but reason={reason}"]
           else if r.drop && keep then [mk "drop-rule-kept" s!"drop rule {r.name} kept the trace"]
